@@ -22,6 +22,7 @@ import ast
 
 from ..engine.model import AnalysisError, src, walk_own
 from ..engine.flow import Flow
+from ..engine.inline import resolved_in_block
 from ..engine.typestate import FactDomain, EventDomain, MUTATORS
 
 MOD = 'basic_robotics.interfaces.comms_core'
@@ -321,8 +322,8 @@ class Checker:
                     if isinstance(f, ast.Attribute) and f.attr == 'sendData':
                         recv = f.value
                         to_ok = isinstance(recv, ast.Name) and ep_vars.get(recv.id) == name
-                        arg_ok = len(call.args) == 1 and isinstance(call.args[0], ast.Call) and isinstance(call.args[0].func, ast.Name) \
-                            and call.args[0].func.id == fv
+                        a0 = resolved_in_block(l.body, call.args[0]) if len(call.args) == 1 else None
+                        arg_ok = isinstance(a0, ast.Call) and isinstance(a0.func, ast.Name) and a0.func.id == fv and not a0.args
                         if not (to_ok and arg_ok):
                             return (((('bad', src(call)), evals), consts),)
                         if isinstance(sends, int):
